@@ -120,6 +120,9 @@ func expectation(cs Case, rq scen.Req) *expect {
 			e.skip["REQUEST_BODY"] = "documented as available for urlencoded bodies only"
 		case "json":
 			for _, it := range cs.Items {
+				if it.Kind == "e" || it.Kind == "E" {
+					continue // an empty container carries no argument
+				}
 				post = append(post, kv{jsonKey(cs, it), it.Value})
 				if it.Kind == "l" {
 					// coraza additionally publishes the length of every array under the array's key
@@ -501,6 +504,8 @@ func jsonKey(cs Case, it Item) string {
 		k += "." + it.Sub
 	case "l":
 		k += ".0"
+	case "e", "E":
+		k += "\x00empty" // publishes nothing: never equal to a readable key
 	}
 	return k
 }
